@@ -53,7 +53,7 @@ theorem handle_entry_limit_eviction_eq (A : F64 F) (c : GlobalCache K V F) (now 
     handle_entry_limit_eviction A ⟨fun b => now - b, now⟩ r c q =
       ({ c with map := (limitStep (cfgOf c) (T02.srcTlru A c.frequency_weight) now r c.map q).1 },
        (limitStep (cfgOf c) (T02.srcTlru A c.frequency_weight) now r c.map q).2) := by
-  obtain ⟨map, order, limit, mm, policy, ttl, fw⟩ := c
+  obtain ⟨map, order, limit, mm, policy, ttl, fw, st⟩ := c
   unfold handle_entry_limit_eviction limitStep
   dsimp only at ok ⊢
   have hlk : ∀ k e, lookup k map = some e → e.hits < u64Max :=
@@ -114,9 +114,9 @@ theorem insert_eq (A : F64 F) (c : GlobalCache K V F) (now r hs ms : Nat) (k : K
       { c with
         map := (Cachelito.insert (cfgOf c) (T02.srcTlru A c.frequency_weight) r ⟨c.map, c.order, now, hs, ms⟩ k v).store,
         order := (Cachelito.insert (cfgOf c) (T02.srcTlru A c.frequency_weight) r ⟨c.map, c.order, now, hs, ms⟩ k v).queue } := by
-  obtain ⟨map, order, limit, mm, policy, ttl, fw⟩ := c
+  obtain ⟨map, order, limit, mm, policy, ttl, fw, st⟩ := c
   unfold Global.insert
-  have ok' : ScoresOK A (GlobalCache.mk (put k ⟨v, now, 0⟩ map) order limit mm policy ttl fw) :=
+  have ok' : ScoresOK A (GlobalCache.mk (put k ⟨v, now, 0⟩ map) order limit mm policy ttl fw st) :=
     ⟨fun p hp => by
         simp [put, eraseKey] at hp
         rcases hp with hp | hp
